@@ -228,11 +228,44 @@ func worldRelease(w *World) {
 	if rr, got := by.register(M{"proxy_name": "by", "proxy_type": "tcp", "remote_port": 20009}); !got || mstr(rr, "error") != "" {
 		w.Fail("bystander register: %v", rr)
 	}
+	// ... and with resources right next to the ones that come and go: routes on the same hosts, restricted to
+	// another user or under another location, in the same route tables
+	neighbours := w.KnobBool("bystander_neighbours", 60)
+	if neighbours {
+		for _, f := range []M{
+			{"proxy_name": "byu", "proxy_type": "http", "custom_domains": []string{"a.example.test", "hl.example.test", "g.example.test"}, "route_by_http_user": "byuser"},
+			{"proxy_name": "byl", "proxy_type": "http", "custom_domains": []string{"b.example.test"}, "locations": []string{"/by"}},
+			{"proxy_name": "bym", "proxy_type": "tcpmux", "multiplexer": "httpconnect", "custom_domains": []string{"m.example.test", "mg.example.test"}, "route_by_http_user": "byuser"},
+		} {
+			if rr, got := by.register(f); !got || mstr(rr, "error") != "" {
+				w.Fail("bystander register: %v", rr)
+			}
+		}
+	}
 	checkBystander := func(when string) {
 		w.Check("C10.bystander-untouched")
 		res := env.probeTCP("10.0.0.1:20009", 10*time.Second)
 		if res.ServedBy != by.Name+"/by" {
 			viol("bystander", "bystander-disturbed-"+when, "%s: the bystander's proxy no longer serves (%q, %v)", when, res.ServedBy, res.Err)
+		}
+		if !neighbours {
+			return
+		}
+		for _, h := range []string{"a.example.test", "hl.example.test", "g.example.test"} {
+			if sb, st, err := env.probeHTTPUser(h, "/q", "byuser", 10*time.Second); sb != by.Name+"/byu" {
+				viol("bystander", "neighbour-route-disturbed-"+when, "%s: the bystander's http route (%s, user byuser) no longer serves: served by %q, status %d, %v", when, h, sb, st, err)
+				return
+			}
+		}
+		if sb, st, err := env.probeHTTP("b.example.test", "/by/1", 10*time.Second); sb != by.Name+"/byl" {
+			viol("bystander", "neighbour-route-disturbed-"+when, "%s: the bystander's http route (b.example.test, /by) no longer serves: served by %q, status %d, %v", when, sb, st, err)
+			return
+		}
+		for _, h := range []string{"m.example.test", "mg.example.test"} {
+			if sb, err := env.probeCONNECT(h, "byuser", 10*time.Second); sb != by.Name+"/bym" {
+				viol("bystander", "neighbour-route-disturbed-"+when, "%s: the bystander's tcpmux route (%s, user byuser) no longer serves: served by %q, %v", when, h, sb, err)
+				return
+			}
 		}
 	}
 
